@@ -6,6 +6,7 @@ import Proofs.C08Spec
 import Proofs.C08Plain
 import Proofs.C08Order
 import Proofs.C08Syn
+import Proofs.C08Cmp
 /-!
   C08 — a decode value is indistinguishable from its JSON value in read-only jq.
 
@@ -416,6 +417,49 @@ theorem indistinguishable_spec_needs_known :
   have := h.1
   rw [h1, h2] at this
   cases this
+
+/-! ### the two indexes of a struct (Children / ByName) -/
+
+/-- StructDecodeValue answers `.k` / `has` from `ByName` and everything else (keys, length, `.[]`,
+    to_entries, tovalue) from `Children`. Every history of D.AddChild / Value.Remove calls that the
+    decoder survives, from the empty struct, leaves the two in agreement (`Cmp.Inv`: the names of the
+    children are distinct and ByName looks up exactly the children) — for the Remove of /repo
+    (value.go:264-293, with `delete(fv.ByName, v.Name)`). -/
+theorem struct_indexes_agree (ops : List CmpOp) (c : Cmp)
+    (h : Cmp.run Cmp.remove ops Cmp.empty = some c) : Cmp.Inv c :=
+  run_inv ops Cmp.empty c inv_empty h
+
+/-- and under that invariant the ByName-reading methods are those of `DV.struct` (which reads the
+    children), so every theorem above applies to the struct the decoder built -/
+theorem struct_key_has_agree (c : Cmp) (h : Cmp.Inv c) (k : Bytes) (key : Val) :
+    c.mKey k = c.toDV.mKey k ∧ c.mHas key = c.toDV.mHas key :=
+  ⟨cmp_key_eq c h k, cmp_has_eq c h key⟩
+
+/-- seeded change S2-C08-2 (Remove without the delete): add a, add b, remove a — `.a` still yields
+    the removed field and has("a") is true, although keys / tovalue no longer have it; the invariant
+    is broken -/
+theorem remove_without_delete_witness :
+    let d1 : DV := .scalar (.uint 1) none true
+    let d2 : DV := .scalar (.uint 2) none true
+    ∃ c, Cmp.run Cmp.removeNoDelete [.add [97] d1, .add [98] d2, .rm [97]] Cmp.empty = some c ∧
+      c.mKey [97] = .ok (.dv d1) ∧ c.toDV.mKey [97] = .ok .null ∧
+      c.mHas (.str [97]) = .ok (.bool true) ∧ c.toDV.mHas (.str [97]) = .ok (.bool false) ∧
+      ¬ Cmp.Inv c := by
+  refine ⟨_, rfl, rfl, rfl, rfl, rfl, ?_⟩
+  intro h
+  have h1 := h.2 [97]
+  have h2 : objGet [97] (objSet [98] (DV.scalar (.uint 2) none true) (objSet [97] (DV.scalar (.uint 1) none true) ([] : List (Bytes × DV))))
+      = some (DV.scalar (.uint 1) none true) := rfl
+  have h3 : fieldGet [97] (List.filter (fun f => !bytesEq f.1 [97])
+      (([] : List (Bytes × DV)) ++ [([97], DV.scalar (.uint 1) none true)] ++ [([98], DV.scalar (.uint 2) none true)])) = none := rfl
+  simp only [Cmp.empty] at h1
+  rw [h2, h3] at h1
+  cases h1
+
+/-- with the Remove of /repo the same history ends in agreement -/
+example : ∃ c, Cmp.run Cmp.remove [.add [97] (.scalar (.uint 1) none true), .add [98] (.scalar (.uint 2) none true),
+    .rm [97], .add [97] (.scalar (.uint 3) none true)] Cmp.empty = some c ∧ c.mHas (.str [97]) = .ok (.bool true) :=
+  ⟨_, rfl, rfl⟩
 
 /-! ### the hypotheses are satisfiable by non-trivial values -/
 
